@@ -276,8 +276,15 @@ def run(repo, tier):
     apply_specs(repo, res, [
         ('photutils.isophote.ellipse.Ellipse.fit_image', 'test', 'sma <= max(minsma, 0.5)',
          'the inward sweep stops when the NEXT sma would fall below max(minsma, 0.5)'),
-        ('photutils.isophote.ellipse.Ellipse.fit_isophote', 'stmt',
-         'isophote = self._non_iterative(sma, step, linear, geometry, sclip, nclip, integrmode)',
-         'non-iterative extraction uses the geometry of the last fitted isophote, not the first guess'),
     ])
+    fi = repo.get_function('photutils.isophote.ellipse.Ellipse.fit_isophote')
+    geo = [nf(c_.args[3]) for c_ in SP.find_calls(fi.node, '_non_iterative') if len(c_.args) > 3]
+    geo += [nf(SP.kwargs_of(c_)['geometry']) for c_ in SP.find_calls(fi.node, 'EllipseSample') if 'geometry' in SP.kwargs_of(c_)]
+    okg = bool(geo) and all(g_ == 'geometry' for g_ in geo)
+    res.oblige('SPEC', 'Ellipse.fit_isophote: non-iterative extraction uses the geometry of the last fitted isophote', okg, nontrivial=True,
+               sample={'geometry_arguments': geo})
+    if not okg:
+        res.add(Finding('SPEC', fi.fullname, 'geometry of the non-iterative sample', fi.loc,
+                        f'Ellipse.fit_isophote hands {geo} to the non-iterative extraction; it must be the local `geometry` (taken from the '
+                        f'last fitted isophote), not the first-guess geometry of the Ellipse', {}))
     return res
